@@ -236,6 +236,22 @@ class Evaluator:
             if not broke:
                 self.block(st.orelse, env)
             return
+        if isinstance(st, ast.While):
+            broke = False
+            while self.truth(self.eval(st.test, env)):
+                self.steps += 1
+                if self.steps > self.max_steps:
+                    raise Unsupported("evaluation does not terminate")
+                try:
+                    self.block(st.body, env)
+                except _Break:
+                    broke = True
+                    break
+                except _Continue:
+                    continue
+            if not broke:
+                self.block(st.orelse, env)
+            return
         if isinstance(st, ast.Pass):
             return
         if isinstance(st, ast.Delete):
@@ -648,6 +664,8 @@ class Evaluator:
                 return getattr(recv, f.attr)(*args)
             if f.attr in ("items", "keys", "values") and isinstance(recv, dict) and not args:
                 return {"items": lambda d: [(k, v) for k, v in d.items()], "keys": lambda d: list(d.keys()), "values": lambda d: list(d.values())}[f.attr](recv)
+            if f.attr == "join" and isinstance(recv, str) and len(args) == 1 and isinstance(args[0], (list, tuple)) and all(isinstance(x, str) for x in args[0]):
+                return recv.join(args[0])
             if f.attr == "append" and isinstance(recv, list) and len(args) == 1:
                 recv.append(args[0])
                 return None
